@@ -364,6 +364,15 @@ func (a *act) applyContract(fs *FuncSpec, fn *ssa.Function, args []Val, cs callS
 			a.specError(c, err)
 			continue
 		}
+		if hasProp(c.Props, "typeinv") && fnPkg(fn) != nil && fnPkg(a.topFn()) != nil && fnPkg(fn).Pkg.Path() != fnPkg(a.topFn()).Pkg.Path() {
+			// `requires [label @typeinv]`: a representation invariant over unexported fields of the callee's package.
+			// Code of another package cannot break it (it cannot write those fields), the package's constructors
+			// establish it and every method re-establishes it (those ARE obligations, inside the package): callers
+			// outside the package may assume it. Listed in the evidence as an assumption.
+			e.cur.externsUsed["type-invariant:"+calleeName(fn)+":"+c.Label] = true
+			e.cur.log.assert(implies(reach, t))
+			continue
+		}
 		a.obligation("requires", fmt.Sprintf("%s#%d:%s", cs.name, cs.ord, c.Label), pos, reach, t)
 	}
 	pre := st.clone()
